@@ -408,6 +408,18 @@ impl Gen {
         if w.groups.is_empty() {
             return None;
         }
+        for k in 0..w.ext.observers.len() {
+            if crate::observer::obs_pending(w) {
+                let _ = k;
+                let kk = (0..w.ext.observers.len()).find(|k| crate::observer::next_pending(w, *k)).unwrap_or(0);
+                return Some(Action::Special {
+                    kind: "obs_feed".into(),
+                    a: kk as u64,
+                    b: 1,
+                    c: 0,
+                });
+            }
+        }
         for g in 0..w.groups.len() {
             let mut st = (*stage >> (2 * g)) & 3;
             let a = Gen::heal_group(w, g, &mut st);
